@@ -253,6 +253,19 @@ func newAPIWorld() *apiWorld {
 		{"P64.ApplyIndentWithOptions(doc64K, tab, SHARED opts)", true, func(w *apiWorld) ([]byte, error) {
 			return w.patches["patch64"].ApplyIndentWithOptions(B("doc64K"), "\t", w.sharedOpt)
 		}},
+		// the Operation accessors on the SHARED decoded patches (a lazily cached decoded value would be state in the Patch)
+		{"P.accessors() [Kind, Path, From, ValueInterface of every operation]", true, func(w *apiWorld) ([]byte, error) { return accessorsOf(w.patches["patchOK"]), nil }},
+		{"Ps.accessors() [Kind, Path, From, ValueInterface of every operation]", true, func(w *apiWorld) ([]byte, error) { return accessorsOf(w.patches["patchS"]), nil }},
+		{"legacy Lp.accessors()", false, func(w *apiWorld) ([]byte, error) {
+			var sb strings.Builder
+			for _, op := range w.lpatch {
+				pth, e1 := op.Path()
+				fr, e2 := op.From()
+				v, e3 := op.ValueInterface()
+				fmt.Fprintf(&sb, "%s|%s|%v|%s|%v|%v|%v;", op.Kind(), pth, e1, fr, e2, v, e3)
+			}
+			return []byte(sb.String()), nil
+		}},
 		// rejected inputs with very many open containers (the scanner keeps / drops its stack)
 		{"Equal(deepOpen,docObj) [2000 unclosed brackets]", true, func(w *apiWorld) ([]byte, error) { return boolBytes(v5.Equal(B("deepOpen"), B("docObj"))), nil }},
 		{"P.Apply(deepOver) [nesting 10001]", true, func(w *apiWorld) ([]byte, error) { return w.patches["patchOK"].Apply(B("deepOver")) }},
@@ -618,4 +631,15 @@ func decodeBufferReuse() []string {
 		}
 	}
 	return bad
+}
+
+func accessorsOf(p v5.Patch) []byte {
+	var sb strings.Builder
+	for _, op := range p {
+		pth, e1 := op.Path()
+		fr, e2 := op.From()
+		v, e3 := op.ValueInterface()
+		fmt.Fprintf(&sb, "%s|%s|%v|%s|%v|%v|%v;", op.Kind(), pth, e1, fr, e2, v, e3)
+	}
+	return []byte(sb.String())
 }
